@@ -51,6 +51,10 @@ type resetSpec struct {
 	// ReopenAtEOF: the next cycle opens the identifier again in the instant both readers have
 	// seen end-of-stream (both directions are reset then), without looking at internal tables
 	ReopenAtEOF bool
+	// CloseWhileWriting: A's messages are written by a thread of their own (blocking-write mode:
+	// it ends up parked behind a closed window) and Close is called this long after it began;
+	// writes that fail are not owed, every write that returned success is
+	CloseWhileWriting time.Duration
 }
 
 type resetObs struct {
@@ -198,7 +202,29 @@ func resetCycle(m *Sim, spec *resetSpec, cycle int) bool {
 	}
 	// A writes and closes
 	want := [2]map[uint16][]string{{}, {}}
+	var writers []*vsched.Thread
+	if spec.CloseWhileWriting > 0 {
+		for _, sid := range spec.SIDs {
+			sid := sid
+			writers = append(writers, m.Go(fmt.Sprintf("c%d.write.%d", cycle, sid), func() {
+				for i, sz := range spec.Sizes {
+					data := payload(sid, cycle*16+i, sz)
+					if _, err := streams[sid].a.WriteSCTP(data, PayloadTypeWebRTCBinary); err != nil {
+						m.Logf(fmt.Sprintf("c%d write sid=%d", cycle, sid), "message %d: %v", i, err)
+						return
+					}
+					mu.Lock()
+					want[1][sid] = append(want[1][sid], string(data))
+					mu.Unlock()
+				}
+			}))
+		}
+		m.Sleep(spec.CloseWhileWriting)
+	}
 	for _, sid := range spec.SIDs {
+		if spec.CloseWhileWriting > 0 {
+			break
+		}
 		for i, sz := range spec.Sizes {
 			if i > 0 && spec.MsgGap > 0 {
 				m.Sleep(spec.MsgGap)
@@ -224,6 +250,7 @@ func resetCycle(m *Sim, spec *resetSpec, cycle int) bool {
 		}
 		m.Logf(fmt.Sprintf("c%d closeA sid=%d", cycle, sid), "ok")
 	}
+	m.Join(writers...)
 	// B: once its reader saw the end of the stream it writes back and closes its direction
 	ok := m.WaitUntil("eof-at-B", 120*time.Second, func() bool {
 		for _, sid := range spec.SIDs {
@@ -360,6 +387,14 @@ func propC14(j *Job) {
 	// blocking-write mode against a small, slowly drained receive buffer: the last message
 	// leaves as a window probe, the end-of-stream marker is alone in the queue behind it; the
 	// next incarnation of the stream (and every other writer) must still get its turn
+	// the same, with Close called while a write of the stream is parked behind the closed window
+	for _, mode := range modes {
+		a, b := withBase(mode.A, 1200, 0xFFFFFFFA, 4000), withBase(mode.B, 1200, 0xFFFFFFF0, 4000)
+		a.BlockWrite = true
+		b.RecvBuf = 1500
+		spec := &resetSpec{A: a, B: b, SIDs: []uint16{5}, Sizes: []int{1000, 400, 1000, 300, 200}, Cycles: 2, Faults: faults, BackSizes: []int{12}, SlowReader: 300 * time.Millisecond, CloseWhileWriting: 100 * time.Millisecond}
+		j.Explore(fmt.Sprintf("R/%s/close-while-blocked", mode.Name), resetScenario(spec), Budget{K: 0}, nil)
+	}
 	for _, mode := range modes {
 		for _, sz := range [][]int{{1000, 1000}, {1000, 400, 1000}} {
 			a, b := withBase(mode.A, 1200, 0xFFFFFFFA, 4000), withBase(mode.B, 1200, 0xFFFFFFF0, 4000)
